@@ -130,7 +130,11 @@ def print_tensor(tns):
     lsci.PrintTensor(tns)
 
 
-lsci.setTensorValue.argtypes = [ctypes.POINTER(TENSOR)]
+lsci.setTensorValue.argtypes = [ctypes.POINTER(TENSOR),
+                                ctypes.c_size_t,
+                                ctypes.c_size_t,
+                                ctypes.c_size_t,
+                                ctypes.c_double]
 lsci.setTensorValue.restype = None
 
 def set_tensor_value(tns, k_indx, i_indx, j_indx, val):
